@@ -457,6 +457,17 @@ def check_on_geo1(
             f"'BG surfaces' have {file_dict['BG surfaces'].values.shape[1]} columns"
         )
 
+    # Check 'sensors lines' shape
+    if (
+        file_dict.get("sensors lines") is not None
+        and not file_dict["sensors lines"].empty
+        and file_dict["sensors lines"].values.shape[1] != 2
+    ):
+        raise ValueError(
+            "'sensors lines' should have 2 columns for the starting and ending node of the line."
+            f"'sensors lines' have {file_dict['sensors lines'].values.shape[1]} columns"
+        )
+
     # Check on same index 'sensors coordinates' and 'sensors directions'
     if (
         file_dict["sensors coordinates"].index.to_list()
@@ -661,6 +672,28 @@ def check_on_geo2(
         raise ValueError(
             "'BG surfaces' should have 3 columns for the i,j and k node of the triangle."
             f"'BG surfaces' have {file_dict['BG surfaces'].values.shape[1]} columns"
+        )
+
+    # Check 'sensors lines' shape
+    if (
+        file_dict.get("sensors lines") is not None
+        and not file_dict["sensors lines"].empty
+        and file_dict["sensors lines"].values.shape[1] != 2
+    ):
+        raise ValueError(
+            "'sensors lines' should have 2 columns for the starting and ending node of the line."
+            f"'sensors lines' have {file_dict['sensors lines'].values.shape[1]} columns"
+        )
+
+    # Check 'sensors surfaces' shape
+    if (
+        file_dict.get("sensors surfaces") is not None
+        and not file_dict["sensors surfaces"].empty
+        and file_dict["sensors surfaces"].values.shape[1] != 3
+    ):
+        raise ValueError(
+            "'sensors surfaces' should have 3 columns for the i,j and k node of the triangle."
+            f"'sensors surfaces' have {file_dict['sensors surfaces'].values.shape[1]} columns"
         )
 
     # if there is no 'sensors sign' create one
